@@ -194,7 +194,13 @@ func newBlockReader(block []byte, headerOff uint32, tableBlockSize uint32, hashS
 	}
 
 	if typ == blockTypeLog {
-		decompress := make([]byte, 0, sz)
+		// Do not trust the header for a large allocation up front;
+		// the buffer grows with the data that is really there.
+		capHint := int(sz)
+		if capHint > 8*len(block) {
+			capHint = 8 * len(block)
+		}
+		decompress := make([]byte, 0, capHint)
 		buf := bytes.NewBuffer(block)
 		out := bytes.NewBuffer(decompress)
 
